@@ -162,7 +162,7 @@ InvalidateTC(tg, tc, add, next) ==
 
 NoJob(kind) ==
     CASE kind = "import" -> [phase |-> "none", batch |-> <<>>, idx |-> <<>>, next |-> 0, file |-> "",
-                             upd |-> {}, res |-> {}, add |-> {}, used |-> 0]
+                             upd |-> {}, res |-> {}, add |-> {}, used |-> 0, n |-> 0]
       [] kind = "tag"    -> [phase |-> "none", tag |-> "", def |-> Def("", 0, <<>>, ""), U0 |-> {}, M0 |-> {},
                              idx |-> <<>>, td |-> <<>>, M1 |-> {}]
       [] kind = "merge"  -> [phase |-> "none", off |-> 0, idx |-> <<>>, file |-> ""]
@@ -249,9 +249,17 @@ ApiImport(k) ==
 \* builder.FromPcap on the snapshot (builder.go:98-570): reassembles all known captures plus the batch,
 \* writes the streams touched by the batch into one new index file f, classifies them, reuses ids.
 ConnsOf(K)      == {c \in Conns : Pieces[c] \cap K # {}}
+\* A capture file may be unreadable (cut off inside a record, no capture at all): by convention the captures numbered from
+\* 90 up.  FromPcap (builder.go:105-131) reads the captures of the batch in order and stops at the first unreadable one: the
+\* batch is the part before it; an unreadable capture at the head of the batch is "processed" alone (it is dropped).
+Bad(k) == k >= 90
+ProcessedPart(batch) ==
+    LET bad == {i \in DOMAIN batch : Bad(batch[i])} IN
+    IF bad = {} THEN batch ELSE IF Min(bad) = 1 THEN <<batch[1]>> ELSE SubSeq(batch, 1, Min(bad) - 1)
 ImportCompute(f) ==
     LET j == jobs.import
-        B == Range(j.batch)
+        proc == ProcessedPart(j.batch)
+        B == {k \in Range(proc) : ~Bad(k)}
         snap == UNION {ContentOf(files, j.idx[i]) : i \in DOMAIN j.idx}
         idOf(c) == LET es == {e \in snap : e[2] = c} IN IF es = {} THEN -1 ELSE (CHOOSE e \in es : TRUE)[1]
         touched == ConnsOf(B)
@@ -267,12 +275,15 @@ ImportCompute(f) ==
     /\ j.phase = "start"
     /\ f \notin DOMAIN files
     /\ known' = known \cup B
-    /\ files' = With(files, f, {<<newId(c), c, ver(c)>> : c \in touched})
-    /\ jobs' = [jobs EXCEPT !.import = [j EXCEPT !.phase = "gate", !.file = f,
-                    !.add = {newId(c) : c \in fresh},
-                    !.res = {newId(c) : c \in {d \in touched : isReset(d)}},
-                    !.upd = {newId(c) : c \in {d \in touched \ fresh : ~isReset(d)}},
-                    !.used = Cardinality(fresh)]]
+    /\ IF B = {}         \* nothing readable: no index file is written
+       THEN /\ files' = files
+            /\ jobs' = [jobs EXCEPT !.import = [j EXCEPT !.phase = "gate", !.n = Len(proc)]]
+       ELSE /\ files' = With(files, f, {<<newId(c), c, ver(c)>> : c \in touched})
+            /\ jobs' = [jobs EXCEPT !.import = [j EXCEPT !.phase = "gate", !.file = f, !.n = Len(proc),
+                            !.add = {newId(c) : c \in fresh},
+                            !.res = {newId(c) : c \in {d \in touched : isReset(d)}},
+                            !.upd = {newId(c) : c \in {d \in touched \ fresh : ~isReset(d)}},
+                            !.used = Cardinality(fresh)]]
     /\ UNCHANGED <<settings, queue, nextID, allS, indexes, use, tags, flags, during, unmerge, views, toConv, cache>>
 
 \* invalidateConverters (manager.go:1575): cached output of updated streams is dropped and re-queued
@@ -284,13 +295,13 @@ InvalidateConv(tc, ca, upd) ==
 ImportDone(pick) ==
     LET j == jobs.import
         rel == ReleaseSeq(use, files, j.idx)
-        idx1 == Append(indexes, j.file)
-        use1 == LockSeq(rel[1], <<j.file>>)
+        idx1 == IF j.file = "" THEN indexes ELSE Append(indexes, j.file)
+        use1 == IF j.file = "" THEN rel[1] ELSE LockSeq(rel[1], <<j.file>>)
         du1 == [upd |-> during.upd \cup j.upd, res |-> during.res \cup j.res, add |-> during.add \cup j.add,
                 inv |-> IF flags.conv THEN during.inv \cup j.upd \cup j.res ELSE during.inv]
         tg1 == Invalidate(tags, j.upd, j.res, j.add, j.next + j.used, 0 .. (j.next + j.used - 1))
         ic == InvalidateConv(InvalidateTC(tags, toConv, j.add, j.next + j.used), cache, j.upd \cup j.res)
-        q1 == SubSeqFrom(queue, Len(j.batch) + 1)
+        q1 == SubSeqFrom(queue, j.n + 1)
         next1 == j.next + j.used
         \* queued captures: start the next import job with everything that is queued
         use2 == IF Len(q1) > 0 THEN LockSeq(use1, idx1) ELSE use1
@@ -707,7 +718,7 @@ AfterRestart(F, ord, T, ca, kn, q, pick) ==
                        LockSeq(<<>>, ord), [upd |-> {}, res |-> {}, add |-> {}, inv |-> {}], tc0)
         b1   == StartTag(b0, ord, IF pick \in DOMAIN tg0 THEN pick ELSE "")      \* (total: records are evaluated eagerly)
         b2   == StartConv(b1, ord)
-    IN [known |-> kn \cup Range(q), nextID |-> nxt, allS |-> all, indexes |-> ord, tg0 |-> tg0,
+    IN [known |-> kn \cup {k \in Range(q) : ~Bad(k)}, nextID |-> nxt, allS |-> all, indexes |-> ord, tg0 |-> tg0,
         bundle |-> StartMerge(b2, ord, F, 0)]
 \* S: the settings of the state file that is loaded (the endpoints come back as a set: New() ranges over a map)
 Restart(ord, T, S, pick) ==
